@@ -131,7 +131,9 @@ func DeserializeTicket(r io.Reader) (*Ticket, error) {
 		return nil, err
 	}
 
-	parsedTypes, err := tlvStream.DecodeWithParsedTypes(r)
+	// Tickets come from untrusted sources, so we use the P2P variant of
+	// the decoder that caps the size of a single record.
+	parsedTypes, err := tlvStream.DecodeWithParsedTypesP2P(r)
 	if err != nil {
 		return nil, err
 	}
@@ -435,5 +437,5 @@ func decodeBytes(tlvBytes []byte, tlvRecords ...tlv.Record) error {
 		return err
 	}
 
-	return tlvStream.Decode(bytes.NewReader(tlvBytes))
+	return tlvStream.DecodeP2P(bytes.NewReader(tlvBytes))
 }
